@@ -123,3 +123,73 @@ Proof. vm_compute. reflexivity. Qed.
 (* without escaping, the same tree shape is broken by the string: the hypothesis-free statement is not a triviality *)
 Example C01_unescaped_breaks : tok (bs "<p>" ++ bs "</p><script>" ++ bs "</p>") <> expected (TElem (bs "p") [] [TStr (bs "</p><script>")]).
 Proof. vm_compute. discriminate. Qed.
+
+(* ================= second round: the document theorem over the template language ================= *)
+From V Require Import proofs.TokRawProof proofs.ScriptPartsProof.
+From V Require spec.JsLex.
+(* C01_document_fragment above now quantifies over ALL trees of model/DocFrag.v: in addition to the first round,
+   HTML comments, doctype, raw style/script elements with static content, script elements with dynamic parts,
+   if/else, for, switch (oracle-driven: the branch taken, the iterations run, the case chosen), component calls,
+   the children block, and arbitrarily nested if/else attribute lists.  The statement is repeated under the name
+   DESIGN section 5 uses. *)
+Theorem C01_document : forall t : tree, wf t = true ->
+  tok (render t) = expected t /\ fst (run Data (render t)) = Data.
+Proof. exact (fun t W => conj (document_fragment t W) (document_fragment_state t W)). Qed.
+Print Assumptions C01_document.
+
+(* a sequence of nodes (a template body) followed by anything: the tokenizer reads the author's tokens and is back in
+   the data state, so what follows is read as if the body were not there *)
+Theorem C01_document_seq : forall (l : list tree) (rest : bytes), forallb wf l = true ->
+  run Data (flat_map render l ++ rest) = let '(st, e) := run Data rest in (st, flat_map expected l ++ e).
+Proof.
+  exact (fun l rest W => seq_list wf Data l (proj2 (Forall_forall _ l) (fun t _ => c01_tree t)) W rest).
+Qed.
+Print Assumptions C01_document_seq.
+
+(* Comments: a body that does not start with > or -> and holds no --> or --!> is read as ONE comment with
+   exactly that body (all bytes, incl. <, quotes, -- and --! in other positions). *)
+Theorem C01_comment_tokens : forall d q : bytes, comment_ok d = true ->
+  run Data ([x3c; x21; x2d; x2d] ++ d ++ [x2d; x2d; x3e] ++ q) = let '(st, e) := run Data q in (st, TComment d :: e).
+Proof. exact comment_tokens. Qed.
+Print Assumptions C01_comment_tokens.
+
+(* Raw-text elements (style: RAWTEXT, script: script data) with static content: content that holds no </name in
+   any letter case (and, in a script, no <! ) is read as character data up to the author's end tag - whatever
+   else it holds ( < , </ , </other>, partial end tags at its very end ...). *)
+Theorem C01_raw_static_tokens : forall (x : tx) (n v rest : bytes), raw2 x = true -> n <> [] -> forallb is_alpha n = true ->
+  raw_static_ok x (map lower n) v = true ->
+  run (Text x (map lower n)) (v ++ [x3c; x2f] ++ n ++ x3e :: rest) =
+  let '(st, e) := run Data rest in (st, chars v ++ TEnd (map lower n) :: e).
+Proof. exact raw_static_tokens. Qed.
+Print Assumptions C01_raw_static_tokens.
+
+(* Script elements with {{ }} parts: static parts as above (a static part followed by a dynamic one not ending in
+   a partial < , </ or </letters), dynamic parts ANY bytes that are clean or cool in the sense of property C03
+   (proved there of the JavaScript escaper and the JSON encoder): the element ends at the author's </script>. *)
+Theorem C01_script_parts_tokens : forall (ps : list spart) (rest : bytes), parts_ok ps = true ->
+  run (Text XScript (bs "script")) (flat_map part_bytes ps ++ [x3c; x2f] ++ bs "script" ++ x3e :: rest) =
+  let '(st, e) := run Data rest in (st, chars (flat_map part_bytes ps) ++ TEnd (bs "script") :: e).
+Proof. exact (fun ps rest W => script_parts_tokens ps W rest). Qed.
+Print Assumptions C01_script_parts_tokens.
+
+(* ---- non-vacuity for the second round, and why the side conditions are there ---- *)
+Definition ex_tree2 : tree :=
+  TCall [TDoc (bs "html");
+    TElem (bs "html") [ACond true [ADyn (bs "lang") ex_xss; ACond false [] [ABool (bs "data-x")]] [AConst (bs "dir") (bs "ltr")]]
+     [TCmt (bs " a <b> -- --! ""' comment "); TRaw (bs "style") [] (bs "p > a { content: ""</p>"" } </sty");
+      TScript [ADyn (bs "nonce") ex_xss] [PStatic (bs "var a = ""</div>"", b = "); PDyn (bs "\u003cx\u003e /"); PStatic (bs "; if (a<b) {} </scr")];
+      TIf false [TText (bs "no")] [TFor [[TElem (bs "li") [] [TStr ex_xss]]; [TElem (bs "li") [] [TStr ex_xss; TChildren [TStr ex_xss]]]]];
+      TSwitch 1 [[TText (bs "zero")]; [TElem (bs "title") [] [TIf true [TStr ex_xss] []; TFor [[TText (bs "x")]; [TStr ex_xss]]]]; [TText (bs "two")]];
+      TSwitch 7 [[TText (bs "never")]]]].
+Example C01_ex2_wf : wf ex_tree2 = true /\ tok (render ex_tree2) = expected ex_tree2.
+Proof. split; vm_compute; reflexivity. Qed.
+(* a comment body starting with > ends at once; static script text holding </script ends the element early;
+   after <!--<script the author's </script> does not end it; a static part ending in < lets clean dynamic bytes finish an end tag *)
+Example C01_comment_side_condition : comment_ok (bs ">x") = false /\ tok (render (TCmt (bs ">x"))) <> expected (TCmt (bs ">x")).
+Proof. split; [reflexivity|vm_compute; discriminate]. Qed.
+Example C01_script_side_conditions :
+  (let t := TRaw (bs "script") [] (bs "a=""</script>""") in wf t = false /\ tok (render t) <> expected t) /\
+  (let t := TRaw (bs "script") [] (bs "<!--<script>") in wf t = false /\ tok (render t) <> expected t) /\
+  (let t := TScript [] [PStatic (bs "x=""<"); PDyn (bs "/script "); PStatic (bs """")] in
+   JsLex.clean (bs "/script ") = true /\ wf t = false /\ tok (render t) <> expected t).
+Proof. repeat split; try reflexivity; vm_compute; discriminate. Qed.
